@@ -89,7 +89,11 @@ func SharedPrefixNames(r *rand.Rand, n, shared int) []string {
 			h = (h &^ bit) | (^hashes[0] & bit)
 		}
 		if seen[h] {
-			continue
+			// when fewer than n distinct hashes exist under the prefix, fall back
+			// to full 64-bit collisions (distinct names, same hash)
+			if shared < 56 || len(seen) < 1<<uint(64-shared) {
+				continue
+			}
 		}
 		seen[h] = true
 		hashes = append(hashes, h)
@@ -118,11 +122,12 @@ const (
 	FamLegacy
 	FamLong
 	FamSingle
+	FamNumeric
 	NumFamilies
 )
 
 func FamilyName(f int) string {
-	return [...]string{"ascii", "mixed", "hexprefix", "legacy", "long", "single"}[f]
+	return [...]string{"ascii", "mixed", "hexprefix", "legacy", "long", "single", "numeric"}[f]
 }
 
 // Names returns n distinct non-empty names of the given family.
@@ -161,6 +166,17 @@ func Names(r *rand.Rand, fam, n int) []string {
 			}
 			copy(b, fmt.Sprintf("%08d-", i))
 			s = string(b)
+		case FamNumeric:
+			switch r.Intn(4) {
+			case 0:
+				s = fmt.Sprint(i)
+			case 1:
+				s = fmt.Sprintf("%03d", r.Intn(1000))
+			case 2:
+				s = fmt.Sprint(1990 + r.Intn(100))
+			default:
+				s = fmt.Sprint(r.Int63())
+			}
 		case FamSingle:
 			s = string(alphabet[i%len(alphabet)])
 			if i >= len(alphabet) {
